@@ -142,18 +142,21 @@ def readPacketS (s : Sock) : PacketRes × Sock :=
             | (some r, s7) => (.insufficient r, s7)
             | (none, s7) => (.packet t.toNat body, { s7 with buf := s7.buf.drop pad })
 
-/-- `get_banner()`: one `recv` at a time, each result cut into lines (the D17 behaviour is modelled as it is) -/
+/-- `get_banner()` after the D17 repair: one `recv` at a time; complete lines are consumed as they become available, a
+    fragment without LF stays buffered; once the peer has stopped (stall, error, close) what is left is read as final lines -/
 def getBannerAux : Nat → List Str → Sock → Option Banner.Banner × List Str × Option RecvRes × Sock
   | 0, h, s => (none, h, some .closed, s)
   | fuel + 1, h, s =>
     let (r, s') := recv s
     match r with
     | .got =>
-      -- the inner loop drains the whole buffer, line by line
+      match Banner.scan h (Banner.cutLines s'.buf).1 with
+      | (some b, h', rest) => (some b, h', none, { s' with buf := rest.flatten ++ (Banner.cutLines s'.buf).2 })
+      | (none, h', _) => getBannerAux fuel h' { s' with buf := (Banner.cutLines s'.buf).2 }
+    | other =>
       match Banner.scan h (Banner.splitLines s'.buf) with
       | (some b, h', rest) => (some b, h', none, { s' with buf := rest.flatten })
-      | (none, h', _) => getBannerAux fuel h' { s' with buf := [] }
-    | other => (none, h, some other, s')
+      | (none, h', _) => (none, h', some other, { s' with buf := [] })
 
 def getBannerS (s : Sock) : Option Banner.Banner × List Str × Option RecvRes × Sock := getBannerAux (s.events.length + 1) [] s
 
